@@ -129,21 +129,30 @@ pub fn emitted_vocabulary() -> &'static (Vec<String>, Vec<String>) {
     })
 }
 
+/// Numeric tails: what a "find the first free suffix" loop may meet (small, zero-padded, beyond u32 /
+/// u64 / u128, underscore-separated).
+const NUMERIC_TAILS: &[&str] = &[
+    "2", "3", "02", "_2", "0", "1", "10", "4294967295", "4294967296", "18446744073709551615", "18446744073709551616", "99999999999999999999999999",
+    "340282366920938463463374607431768211456", "2_", "22",
+];
+
 fn pick_type_name(rng: &mut Rng) -> String {
     let v = emitted_vocabulary();
-    if !v.0.is_empty() && rng.chance(0.3) {
-        rng.pick(&v.0).clone()
+    let base = if !v.0.is_empty() && rng.chance(0.3) { rng.pick(&v.0).clone() } else { rng.pick_str(TYPE_NAME_POOL).to_string() };
+    if rng.chance(0.12) {
+        format!("{base}{}", rng.pick_str(NUMERIC_TAILS))
     } else {
-        rng.pick_str(TYPE_NAME_POOL).to_string()
+        base
     }
 }
 
 fn pick_field_name(rng: &mut Rng) -> String {
     let v = emitted_vocabulary();
-    if !v.1.is_empty() && rng.chance(0.3) {
-        rng.pick(&v.1).clone()
+    let base = if !v.1.is_empty() && rng.chance(0.3) { rng.pick(&v.1).clone() } else { rng.pick_str(FIELD_NAME_POOL).to_string() };
+    if rng.chance(0.12) {
+        format!("{base}{}", rng.pick_str(NUMERIC_TAILS))
     } else {
-        rng.pick_str(FIELD_NAME_POOL).to_string()
+        base
     }
 }
 
